@@ -1380,7 +1380,18 @@ def err_inventory(prog, fn, table_keys=(), depth=0):
                 add("?:" + src[1].rsplit("::", 1)[-1])
             else:
                 add("V:?")
+        elif k == "call" and returns_result_fn(fn):
+            # a fallible workspace callee in tail position (`helper(..)` returned as it is): its failures are this function's
+            t = v.cx.call(w, (fn.key, b))
+            src = source_call(t)
+            if isinstance(src, tuple) and src and src[0] == "call" and (src[1].lstrip("<").startswith("frost") or " as frost" in src[1]):
+                from_callee(src)
     return inv
+
+
+def returns_result_fn(fn):
+    from .guards import returns_result
+    return returns_result(fn)
 
 
 def refusal_inventory(ctx):
@@ -1465,14 +1476,14 @@ def reduction_of(prog, fn, v, t):
         key, local = t[1]
         if key != fn.key:
             return None
-        for lp in loop_report(prog, fn):
+        for lp in loop_report(prog, fn, v):
             if local in lp["acc"]:
                 it = lp["iter_term"]
                 if it is None:
                     return None
                 item = lambda x, it=it: x[0] == "some" and is_call(x[1], name="next") and x[1][2] and x[1][2][0] == it
                 lv = lambda x: x[0] == "loopvar" and x[2] == local
-                cx = TermCx(prog, fn)
+                cx = TermCx(prog, fn, v.cx.argsub, v.cx.depth, frames=v.cx.frames)     # same vocabulary as the view
                 cx.busy.add(local)
                 init, steps, after = [], [], []
                 rpo = fn.rpo()
@@ -1529,8 +1540,8 @@ def mapping_of(prog, fn, v, t):
             return None
         o = ins[0]
         site = o[3]
-        bb = site[-1] if site[0] != "inl" else None
-        for lp in loop_report(prog, fn):
+        bb = site_bb(site, fn)
+        for lp in loop_report(prog, fn, v):
             if bb is not None and bb in lp["body"] and lp["iter_term"] is not None:
                 it = lp["iter_term"]
                 item = lambda x, it=it: x[0] == "some" and is_call(x[1], name="next") and x[1][2] and x[1][2][0] == it
@@ -1731,8 +1742,8 @@ def per_item_bytes(P, f, v):
         ops = [o for o in t[2] if o[1] not in ("reserve",)]
         if not ops or any(o[1] not in EXTENDERS or not o[2] for o in ops):
             return None
-        for lp in loop_report(P, f):
-            if lp["iter_term"] is None or not all(o[3][0] != "inl" and o[3][-1] in lp["body"] for o in ops):
+        for lp in loop_report(P, f, v):
+            if lp["iter_term"] is None or not all(site_bb(o[3], f) is not None and o[3][-1] in lp["body"] for o in ops):
                 continue
             it = lp["iter_term"]
             if any(c == "break" for _, c in lp["exits"]):
@@ -1814,6 +1825,16 @@ def seq_components(P, f, v, t):
     return [("?", x)]
 
 
+def site_bb(site, f):
+    """block of a call/op site if it lies in function f itself — directly, or because f is being looked at through a call-site view
+    (sites then carry the frames of that view) — else None"""
+    if not site:
+        return None
+    if site[0] == "inl":
+        return site[-1] if site[2] == f.key else None
+    return site[-1] if site[0] == f.key else None
+
+
 def map_components(P, f, v, t):
     """contents of a map / vector value as an unordered list of components:
        ("each", source, key, val)  one entry per element of `source` (key/val over ITEM; key None for vectors),
@@ -1846,7 +1867,7 @@ def map_components(P, f, v, t):
         for o in t[2]:
             if o[1] == "reserve":
                 continue
-            if o[1] not in ("insert", "push") or o[3][0] == "inl" or o[3][0] != f.key:
+            if o[1] not in ("insert", "push") or site_bb(o[3], f) is None:
                 out.append(("?", o))
                 continue
             bb = o[3][-1]
